@@ -41,7 +41,18 @@ pub struct Stats {
     pub oracle_checks: HashMap<&'static str, u64>,
 }
 
+pub struct Rep {
+    pub tree: Box<dyn AnyTree>,
+    /// key -> (key digest, value)
+    pub store: BTreeMap<Vec<u8>, (Vec<u8>, Vec<u8>)>,
+}
+
 pub struct Exec {
+    /// real snapshots taken by `snap`, with the ranges they described when taken
+    pub snaps: HashMap<u64, (Box<dyn AnySnap>, Vec<OwnedRange>)>,
+    /// C03-C07 hypothesis check: page digest -> canonical description of the page pre-image
+    pub preimages: HashMap<[u8; 16], String>,
+    pub reps: HashMap<u64, Rep>,
     pub trees: HashMap<u64, Slot>,
     pub lists: HashMap<u64, Vec<OwnedRange>>,
     pub fails: Vec<OracleFail>,
@@ -154,6 +165,9 @@ impl<'a> TraceCheck<'a> {
 impl Exec {
     pub fn new(oracle_every: usize) -> Self {
         Exec {
+            snaps: HashMap::new(),
+            preimages: HashMap::new(),
+            reps: HashMap::new(),
             trees: HashMap::new(),
             lists: HashMap::new(),
             fails: vec![],
@@ -261,6 +275,57 @@ impl Exec {
             let r = f.hash();
             Some((r, f.ser()))
         }));
+        // hypothesis of C03-C07 on everything explored: distinct page pre-images, distinct digests
+        {
+            let evs = t.events(None);
+            let mut stack: Vec<(Option<[u8; 16]>, String, bool)> = vec![]; // (digest, preimage so far, awaiting child digest)
+            let mut finished: Vec<([u8; 16], String)> = vec![];
+            let mut last_closed: Option<[u8; 16]> = None;
+            for e in &evs {
+                match e {
+                    Ev::VisitPage { cache, high, .. } => {
+                        if *high {
+                            // belongs to the page closed just before: append to its preimage
+                            if let (Some(d), Some(c)) = (last_closed, cache) {
+                                if let Some(f) = finished.iter_mut().rev().find(|f| f.0 == d) {
+                                    f.1.push_str(&format!("|H{}", hex(c)));
+                                }
+                            }
+                        } else if let (Some(top), Some(c)) = (stack.last_mut(), cache) {
+                            top.1.push_str(&format!("|C{}", hex(c)));
+                        }
+                        stack.push((*cache, String::new(), false));
+                    }
+                    Ev::VisitNode(k, v) => {
+                        if let Some(top) = stack.last_mut() {
+                            top.1.push_str(&format!("|K{}:{}", hex(k), hex(v)));
+                        }
+                    }
+                    Ev::PostPage(_) => {
+                        if let Some((Some(d), pre, _)) = stack.pop() {
+                            finished.push((d, pre));
+                            last_closed = Some(d);
+                        } else {
+                            last_closed = None;
+                        }
+                    }
+                    _ => {}
+                }
+            }
+            // NB: a high page's digest is appended after its parent closed; order pages by closing
+            for (d, pre) in finished {
+                match self.preimages.get(&d) {
+                    Some(old) if *old != pre => {
+                        self.fail("C03", format!("two different page pre-images share digest {}", hex(&d)));
+                    }
+                    Some(_) => {}
+                    None => {
+                        self.preimages.insert(d, pre);
+                    }
+                }
+            }
+            self.tick("CollisionFree");
+        }
         let (ref_root, ref_ranges) = ref_tree(&content);
         self.tick("C14");
         if root != ref_root {
@@ -484,6 +549,7 @@ impl Exec {
                     } else if let Some(v) = r.strip_prefix("ctor=") {
                         ctor = match v {
                             "builder" => Ctor::Builder,
+                            "builder2" => Ctor::BuilderBaseFirst,
                             "default" => Ctor::Default,
                             "deprecated" => Ctor::Deprecated,
                             _ => return Err(bad()),
@@ -659,12 +725,13 @@ impl Exec {
                     Some(t) => t,
                     None => return Ok("poisoned".into()),
                 };
-                match catch_unwind(AssertUnwindSafe(|| tree.ser())) {
-                    Ok(Some(l)) => {
+                match catch_unwind(AssertUnwindSafe(|| (tree.ser(), tree.snapshot()))) {
+                    Ok((Some(l), Some(sn))) => {
+                        self.snaps.insert(id, (sn, l.clone()));
                         self.lists.insert(id, l);
                         Ok("ok".into())
                     }
-                    Ok(None) => Ok("none".into()),
+                    Ok(_) => Ok("none".into()),
                     Err(_) => Ok("panic".into()),
                 }
             }
@@ -696,17 +763,37 @@ impl Exec {
                 if panicked {
                     return Ok("panic".into());
                 }
+                self.snaps.remove(&id);
                 self.lists.insert(id, l);
                 Ok("ok".into())
             }
             ["show", id] => {
-                let l = self.lists.get(&num(id)?).ok_or_else(bad)?;
+                let id = num(id)?;
+                if let Some((sn, taken)) = self.snaps.get(&id) {
+                    // C16: the snapshot keeps describing the tree as it was when taken
+                    let now = sn.ranges();
+                    let same = now == *taken;
+                    let out = show_prs(&now);
+                    self.tick("C16");
+                    if !same {
+                        self.fail("C16", "a PageRangeSnapshot changed after later upserts to the tree".into());
+                    }
+                    return Ok(out);
+                }
+                let l = self.lists.get(&id).ok_or_else(bad)?;
                 Ok(show_prs(l))
             }
             ["ldiff", a, b] => {
                 self.count("ldiff");
-                let (la, lb) = match (self.lists.get(&num(a)?), self.lists.get(&num(b)?)) {
-                    (Some(x), Some(y)) => (x.clone(), y.clone()),
+                let (ia, ib) = (num(a)?, num(b)?);
+                let get = |e: &Exec, id: u64| -> Option<Vec<OwnedRange>> {
+                    if let Some((sn, _)) = e.snaps.get(&id) {
+                        return Some(sn.ranges());
+                    }
+                    e.lists.get(&id).cloned()
+                };
+                let (la, lb) = match (get(self, ia), get(self, ib)) {
+                    (Some(x), Some(y)) => (x, y),
                     _ => return Err(bad()),
                 };
                 self.tick("C13");
@@ -787,6 +874,118 @@ impl Exec {
                     }
                 }
                 Ok(format!("{d1} | {d2}"))
+            }
+            ["rnew", r, base, rest @ ..] => {
+                self.count("rnew");
+                let r = num(r)?;
+                let base: u8 = base.parse().map_err(|_| bad())?;
+                let mut n = 2usize;
+                for x in rest {
+                    if let Some(v) = x.strip_prefix("n=") {
+                        n = v.parse().map_err(|_| bad())?;
+                    }
+                }
+                let tree = make_tree(base, n, &Kind::Table, &Ctor::Builder, &KeyKind::Bytes).map_err(|e| format!("bad-op {e}"))?;
+                self.reps.insert(r, Rep { tree, store: BTreeMap::new() });
+                Ok("ok".into())
+            }
+            ["rwrite", r, k, kd, v, m] => {
+                self.count("rwrite");
+                let r = num(r)?;
+                let (k, kd, v) = (parse_xtok(k).ok_or_else(bad)?, parse_xtok(kd).ok_or_else(bad)?, parse_xtok(v).ok_or_else(bad)?);
+                let join = match *m {
+                    "join" => true,
+                    "peer" => false,
+                    _ => return Err(bad()),
+                };
+                let rep = self.reps.get_mut(&r).ok_or_else(bad)?;
+                let merged = match rep.store.get(&k) {
+                    Some((_, old)) if join && *old >= v => old.clone(),
+                    _ => v,
+                };
+                let res = catch_unwind(AssertUnwindSafe(|| rep.tree.ups(&k, &kd, &merged, None)));
+                match res {
+                    Ok(Ok(())) => {
+                        rep.store.insert(k, (kd, merged));
+                        Ok("ok".into())
+                    }
+                    Ok(Err(e)) => Err(format!("bad-op {e}")),
+                    Err(_) => {
+                        self.fail("C15", "upsert panicked during a replica write".into());
+                        Ok("panic".into())
+                    }
+                }
+            }
+            ["rpull", i, j, m] => {
+                self.count("rpull");
+                let (i, j) = (num(i)?, num(j)?);
+                let join = match *m {
+                    "join" => true,
+                    "peer" => false,
+                    _ => return Err(bad()),
+                };
+                if i == j || !self.reps.contains_key(&i) || !self.reps.contains_key(&j) {
+                    return Err(bad());
+                }
+                // both sides regenerate their hashes, then the receiver diffs borrowed page ranges
+                let out = catch_unwind(AssertUnwindSafe(|| {
+                    self.reps.get_mut(&i).unwrap().tree.hash();
+                    self.reps.get_mut(&j).unwrap().tree.hash();
+                    let mut c16 = vec![];
+                    let d = self.reps[&i].tree.diff_with(self.reps[&j].tree.as_ref(), &mut c16);
+                    (d, c16)
+                }));
+                let (d, c16) = match out {
+                    Ok(x) => x,
+                    Err(_) => {
+                        self.fail("C15", "panic while hashing / diffing during a pull".into());
+                        return Ok("panic".into());
+                    }
+                };
+                for mmsg in c16 {
+                    self.fail("C16", mmsg);
+                }
+                let ranges = match d {
+                    DiffOut::Ok(d) => d,
+                    _ => {
+                        self.fail("C15", "diff during a pull panicked or was not serialisable".into());
+                        return Ok("panic".into());
+                    }
+                };
+                let mut fetched: Vec<(Vec<u8>, Vec<u8>, Vec<u8>)> = vec![];
+                for (k, (kd, v)) in self.reps[&j].store.iter() {
+                    if ranges.iter().any(|r| r.0 <= *k && *k <= r.1) {
+                        fetched.push((k.clone(), kd.clone(), v.clone()));
+                    }
+                }
+                let rep = self.reps.get_mut(&i).unwrap();
+                for (k, kd, v) in &fetched {
+                    let merged = match rep.store.get(k) {
+                        Some((_, old)) if join && old >= v => old.clone(),
+                        _ => v.clone(),
+                    };
+                    let res = catch_unwind(AssertUnwindSafe(|| rep.tree.ups(k, kd, &merged, None)));
+                    if !matches!(res, Ok(Ok(()))) {
+                        self.fail("C15", "upsert panicked while absorbing fetched keys".into());
+                        return Ok("panic".into());
+                    }
+                    rep.store.insert(k.clone(), (kd.clone(), merged));
+                }
+                let f: Vec<(Vec<u8>, Vec<u8>)> = fetched.iter().map(|x| (x.0.clone(), x.2.clone())).collect();
+                let st: Vec<(Vec<u8>, Vec<u8>)> = self.reps[&i].store.iter().map(|(k, (_, v))| (k.clone(), v.clone())).collect();
+                Ok(format!("{} | {} | {}", show_drs(&ranges), show_kvs(&f), show_kvs(&st)))
+            }
+            ["rhash", r] => {
+                self.count("rhash");
+                let rep = self.reps.get_mut(&num(r)?).ok_or_else(bad)?;
+                match catch_unwind(AssertUnwindSafe(|| rep.tree.hash())) {
+                    Ok(h) => Ok(hex(&h)),
+                    Err(_) => Ok("panic".into()),
+                }
+            }
+            ["rtrav", r] => {
+                let rep = self.reps.get(&num(r)?).ok_or_else(bad)?;
+                Ok(show_evs(&rep.tree.events(None)))
             }
             ["lvl", d, base] => {
                 self.count("lvl");
